@@ -1,10 +1,11 @@
 PROP = dict(
     properties="Properties/C19.v",
     harness_mods=["Harness/C19.v"],
-    runs=[dict(cmd="c19", quick=24, thorough=400, timeout=3000)],
+    runs=[dict(cmd="c19d", quick=6, thorough=60), dict(cmd="c19", quick=24, thorough=400, timeout=3000)],
     trusted_base=[
         "hand-written Gallina model coq/Consensus/Dbft.v of a dBFT 2.0 validator at one height (github.com/nspcc-dev/dbft is a dependency: modelled, not verified)",
-        "trace checker coq/Harness/C19.v (guards of the abstract validator evaluated on what each real service had been handed)",
+        "trace checker coq/Harness/C19.v (guards of the abstract validator evaluated on what each real service had been handed; transcription of verifyRequest/verifyBlock for crafted proposals)",
+        "hand-written model coq/Consensus/Witness.v of getBlockWitness over the dBFT commit table; hook pkg/consensus/verif_hooks.go (VerifDriver: the harness plays the event loop of a not-started service)",
     ],
     assumptions=[
         "at most f = (n-1)/3 validators deviate; a validator can only send under its own index (payload signatures; the harness hands payloads to OnPayload directly, the network layer's witness check is not exercised)",
@@ -13,6 +14,6 @@ PROP = dict(
     modelled="abstract dBFT node modelled and proved safe; the real dbft library + pkg/consensus glue are tied to it only through the traces of in-process 4- and 7-validator networks; liveness only as round-progress lemmas",
 )
 META = dict(
-    text="PARTIAL. Proved in Coq for every n >= 3f+1, every trace, any network behaviour and any behaviour of up to f validators: agreement of the abstract dBFT 2.0 validator (quorum intersection + commit lock), validity of accepted blocks (M matching commits over a proposal an honest committer checked), commit-once; round-progress lemmas and, by evaluation, completion of the synchronous view-0 round for 4, 7, 10 validators. Tie: in-process networks of the REAL consensus.Service (4 and 7 validators, real ledgers, real dbft library, real timers) under seeded delay/reorder/duplication/drop, changing silent sets and differing mempools; checked directly: no two ledgers differ at any height, every committed block is accepted by its own and every other ledger, with full delivery blocks keep coming and include all pending transactions; checked in Coq on the trace: every broadcast and every block acceptance of every service satisfies the guards of the abstract validator. Missing: liveness in general; dbft's recovery logic is covered only through the traces.",
+    text="PARTIAL. Proved in Coq for every n >= 3f+1, every trace, any network behaviour and any behaviour of up to f validators: agreement of the abstract dBFT 2.0 validator (quorum intersection + commit lock), validity of accepted blocks (M matching commits over a proposal an honest committer checked), commit-once; round-progress lemmas and, by evaluation, completion of the synchronous view-0 round for 4, 7, 10 validators. Tie: in-process networks of the REAL consensus.Service (4 and 7 validators, real ledgers, real dbft library, real timers) under seeded delay/reorder/duplication/drop, changing silent sets and differing mempools; checked directly: no two ledgers differ at any height, every committed block is accepted by its own and every other ledger, with full delivery blocks keep coming and include all pending transactions; checked in Coq on the trace: every broadcast and every block acceptance of every service satisfies the guards of the abstract validator. Added after the first independent mutation round: directed, timer-free schedules of hand-driven real services (commit in view v by k<=f validators, view change, decision in view v+1 with the old commits in the table; every choice of the stale validators, 4 and 7 validators) with the witness checked by two real ledgers and by the Coq model of the witness assembly (proved: built from current-view commits it passes the multisig check; refuted without the view test), and crafted PrepareRequests against a real backup covering every refusing clause of verifyRequest/verifyBlock. Missing: liveness in general; dbft's recovery logic is covered only through the traces.",
     note="Trusted: Coq kernel, the Go harness (scheduler, trace recorder), ./check. The abstract validator is hand-written; the library is not verified. Payload signature verification by the network layer is outside the harness.",
 )
